@@ -54,6 +54,12 @@ def main():
                 r = sh("cargo test --offline --test demo 2>&1", cwd=WT)
                 res["demo_fails_with_change"] = (not tests_green(r.stdout))
                 res["demo_output_tail"] = r.stdout.strip().splitlines()[-4:]
+                if not res["demo_fails_with_change"]:
+                    # build-profile dependent changes: try the optimised profile as well
+                    r = sh("cargo test --offline --release --test demo 2>&1", cwd=WT)
+                    res["demo_fails_with_change"] = (not tests_green(r.stdout))
+                    res["demo_fails_only_in_release"] = res["demo_fails_with_change"]
+                    res["demo_output_tail"] = r.stdout.strip().splitlines()[-4:]
         sh("git checkout -- . && git clean -fdq -- src benches && rm -rf tests", cwd=WT)
         meta["confirmed"] = res
         meta["confirm_commands"] = ["git worktree add /tmp/confirm-wt HEAD", "cp demo.rs tests/demo.rs; cargo test --offline --test demo  (clean HEAD)", "git apply patch.diff; cargo test --offline; cargo test --offline --test demo"]
@@ -62,7 +68,9 @@ def main():
         # run the checks of /verif against it
         if ok:
             sel = "all" if checks == "all" else " ".join(checks.split(","))
-            r = sh(f"python3 /verif/tools/try_patch.py {patch} --no-tests {sel}")
+            r = sh(f"timeout 2400 python3 /verif/tools/try_patch.py {patch} --no-tests {sel}")
+            if r.returncode == 124:
+                sh("git -C /repo checkout -- . && git -C /repo clean -fdq -- src tests benches")
             m = re.search(r"^RESULT (.*)$", r.stdout, re.M)
             if m:
                 rr = json.loads(m.group(1))
